@@ -48,6 +48,8 @@ type ProtoCase struct {
 	ChunkSize int64  `json:"chunk_size"`
 	Script    []Resp `json:"script"` // consumed one per request, then honest
 	Ops       []Read `json:"ops"`
+	// PrefetchChunk > ChunkSize makes Cache split its range into pieces fetched in parallel (prefetch_chunk_size)
+	PrefetchChunk int64 `json:"prefetch_chunk,omitempty"`
 }
 
 func genResp(t *rapid.T, size int) Resp {
@@ -90,6 +92,15 @@ func genProto(t *rapid.T) ProtoCase {
 		return Read{Op: rapid.SampledFrom([]string{"read", "read", "read", "cache", "check", "refresh"}).Draw(t, "op"),
 			Off: int64(rapid.IntRange(0, size+20).Draw(t, "off")), Len: rapid.IntRange(0, size+20).Draw(t, "len")}
 	}), 1, 6).Draw(t, "ops")
+	if rapid.IntRange(0, 3).Draw(t, "pfchunk") == 0 {
+		c.PrefetchChunk = c.ChunkSize * int64(rapid.SampledFrom([]int{2, 3, 10}).Draw(t, "pfmult"))
+	}
+	if rapid.IntRange(0, 4).Draw(t, "hugecache") == 0 {
+		// the size to cache is the prefetch landmark's offset, i.e. a number from the TOC (the blob's own size is
+		// what an honest registry says: a layer whose size probe lies does not get as far as prefetching)
+		c.Script = append([]Resp{{Honest: true}, {Honest: true}, {Honest: true}}, c.Script...)
+		c.Ops = append(c.Ops, Read{Op: "cache", Off: 0, Len: rapid.SampledFrom([]int{1 << 40, 1 << 62, 1<<63 - 1}).Draw(t, "hugelen")})
+	}
 	return c
 }
 
@@ -153,7 +164,7 @@ func runProto(c ProtoCase, ev *pbt.Ev) error {
 		i++
 		return memreg.Action{}
 	}
-	res := remote.NewResolver(config.BlobConfig{ChunkSize: c.ChunkSize, FetchTimeoutSec: 1, ValidInterval: 1, CheckAlways: true}, nil)
+	res := remote.NewResolver(config.BlobConfig{ChunkSize: c.ChunkSize, PrefetchChunkSize: c.PrefetchChunk, FetchTimeoutSec: 1, ValidInterval: 1, CheckAlways: true}, nil)
 	ref, _ := reference.Parse("reg.example/repo/img:latest")
 	desc := ocispec.Descriptor{Digest: dgst, Size: int64(len(blob)), MediaType: ocispec.MediaTypeImageLayerGzip}
 	ctx, cancel := context.WithTimeout(context.Background(), 20*time.Second)
